@@ -8,6 +8,7 @@ from ..cfg import assigns_to, build_cfg
 from ..index import Repo
 from ..rules import calling, fn_cfg, guarded_by, k1_before, k1_never_after, k2_unreachable, k3_after, mentions, need
 from ..rustlite import RustFile, early_return_guard, top_level_statements
+from ..index import AnalysisError
 from ..selftest import Mutant
 
 ID = "C26"
@@ -70,6 +71,25 @@ def held_path_deletes(cls):
                 n += 1
                 for a in c.args:
                     if _is_held(a) or (aliases & {x.id for x in ast.walk(a) if isinstance(x, ast.Name)}):
+                        out.append((item.name, c))
+    # one level of helpers: a method that deletes a path built from one of its parameters is a delete of whatever its
+    # callers pass (e.g. _remove_pending_dir(self._held_dir))
+    helper_params = {}
+    for item in cls.body:
+        if isinstance(item, ast.FunctionDef):
+            params = [a.arg for a in item.args.args if a.arg != "self"]
+            used = {x.id for c in calls_in(item) if call_attr(c) in DELETES and (call_recv(c) or "").endswith("transport") for a in c.args for x in ast.walk(a) if isinstance(x, ast.Name)} & set(params)
+            if used:
+                helper_params[item.name] = (params, used)
+    for item in cls.body:
+        if not isinstance(item, ast.FunctionDef):
+            continue
+        aliases = {t.id for s in walk_own(item) if isinstance(s, ast.Assign) and _is_held(s.value) for t in s.targets if isinstance(t, ast.Name)}
+        for c in calls_in(item):
+            if call_recv(c) == "self" and call_attr(c) in helper_params:
+                params, used = helper_params[call_attr(c)]
+                for p_, a in list(zip(params, c.args)) + [(k.arg, k.value) for k in c.keywords]:
+                    if p_ in used and (_is_held(a) or (aliases & {x.id for x in ast.walk(a) if isinstance(x, ast.Name)})):
                         out.append((item.name, c))
     return out, n
 
@@ -210,7 +230,9 @@ def run(ctx):
 
     # ---- R5 ----------------------------------------------------------------
     fn, g, where = fn_cfg(ctx, LD, "LockDir._handle_lock_contention")
-    fb = need(where, calling(g, attr="force_break", recv="self"), "self.force_break(...)")
+    fb = calling(g, attr="force_break", recv="self")
+    if not ctx.check("R5-steal-through-force-break", where, bool(fb), "a dead holder's lock is removed through force_break (peek, compare, rename aside, re-check, delete)", message="_handle_lock_contention no longer goes through force_break to take a dead holder's lock away: whatever it does instead skips the compare-and-rename-aside protocol (a lock that changed hands is removed, or the held directory is emptied in place and a crash leaves a lock nobody can read or break)"):
+        raise AnalysisError(f"{where}: steal path without force_break; the remaining steal rules cannot be evaluated")
     k2_unreachable(ctx, "R5-steal-only-dead", where, g, {"other_holder.is_lock_holder_known_dead()": False}, fb, "stealing requires other_holder.is_lock_holder_known_dead()")
     k2_unreachable(ctx, "R5-steal-only-dead", where, g, {"other_holder is not None": False}, fb, "stealing requires readable holder info")
     k2_unreachable(ctx, "R5-steal-needs-option", where, g, {"self.get_config().get('locks.steal_dead')": False}, fb, "stealing requires the locks.steal_dead option")
